@@ -383,3 +383,64 @@ impl Seek for SparseStream {
         Ok(self.pos)
     }
 }
+
+
+/// Read + Seek over `bytes` with `gap.1` zero bytes spliced in at index `gap.0`, without
+/// materialising them: serves files larger than 4 GiB (refmp4 `Built::gap`).
+pub struct GapStream {
+    pub bytes: Vec<u8>,
+    pub gap: (usize, u64),
+    pos: u64,
+}
+
+impl GapStream {
+    pub fn new(bytes: Vec<u8>, gap: Option<(usize, u64)>) -> Self {
+        let gap = gap.unwrap_or((bytes.len(), 0));
+        GapStream { bytes, gap, pos: 0 }
+    }
+    pub fn len(&self) -> u64 {
+        self.bytes.len() as u64 + self.gap.1
+    }
+}
+
+impl Read for GapStream {
+    fn read(&mut self, buf: &mut [u8]) -> io::Result<usize> {
+        let (g0, glen) = (self.gap.0 as u64, self.gap.1);
+        if buf.is_empty() || self.pos >= self.len() {
+            return Ok(0);
+        }
+        if self.pos < g0 {
+            let n = ((g0 - self.pos) as usize).min(buf.len());
+            let at = self.pos as usize;
+            buf[..n].copy_from_slice(&self.bytes[at..at + n]);
+            self.pos += n as u64;
+            Ok(n)
+        } else if self.pos < g0 + glen {
+            let n = ((g0 + glen - self.pos).min(buf.len() as u64)) as usize;
+            buf[..n].iter_mut().for_each(|b| *b = 0);
+            self.pos += n as u64;
+            Ok(n)
+        } else {
+            let at = (self.pos - glen) as usize;
+            let n = (self.bytes.len() - at).min(buf.len());
+            buf[..n].copy_from_slice(&self.bytes[at..at + n]);
+            self.pos += n as u64;
+            Ok(n)
+        }
+    }
+}
+
+impl Seek for GapStream {
+    fn seek(&mut self, p: SeekFrom) -> io::Result<u64> {
+        let target: i128 = match p {
+            SeekFrom::Start(x) => x as i128,
+            SeekFrom::Current(d) => self.pos as i128 + d as i128,
+            SeekFrom::End(d) => self.len() as i128 + d as i128,
+        };
+        if target < 0 {
+            return Err(io::Error::new(io::ErrorKind::InvalidInput, "seek before start"));
+        }
+        self.pos = target.min(u64::MAX as i128) as u64;
+        Ok(self.pos)
+    }
+}
